@@ -198,11 +198,18 @@ class ClassModel:
                                 return i
         return None
 
-    def extent_of(self, ptr, f, A):
+    def extent_of(self, ptr, f, A, _depth=0):
         p, c = up_through_casts(ptr)
         if p is None:
             return None, 'no consumer'
         pk = p.get('kind')
+        if pk == 'VarDecl' and '*' in (qtype(p) or '') and _depth < 2:
+            # the pointer is only given a name: its extent is that of the (single) use of the name
+            uses = [x for x in walk(body_of(f)) if x.get('kind') == 'DeclRefExpr' and (x.get('referencedDecl') or {}).get('id') == p.get('id')]
+            writes = [x for x in walk(body_of(f)) if x.get('kind') in ('BinaryOperator', 'CompoundAssignOperator', 'UnaryOperator') and x.get('opcode') in ('=', '+=', '-=', '++', '--') and (ref_decl(x['inner'][0]) or {}).get('id') == p.get('id')]
+            if len(uses) == 1 and not writes:
+                return self.extent_of(uses[0], f, A, _depth + 1)
+            return None, 'pointer stored in %s, which has %d uses' % (p.get('name'), len(uses))
         if pk == 'ReturnStmt':
             cands = [q.get('name') for q in params_of(f) if (dtype(q) or '') == 'unsigned long' and q.get('name') not in _idents(A)]
             if len(cands) == 1:
@@ -326,6 +333,10 @@ def returned_extent_functions(cm, discharged_nodes):
                 if len(args) == 0:
                     continue
                 acc = [n for n in discharged_nodes if any(a is ce for a in ancestors(n))]
+                if not acc and len(args) >= 2:
+                    # the pointer was given a name first: match the construction's length with a discharged access of this function
+                    ee = cm.inl.c(args[1])
+                    acc = [n for n in discharged_nodes if any(a is body for a in ancestors(n)) and discharged_nodes_E[id(n)] == ee]
                 if not acc or not all(discharged_nodes_A[id(n)] == first for n in acc):
                     ok = False
                     break
